@@ -30,26 +30,44 @@ extern "C" int printf(const char *, ...);
 
 
 def _body(fields, sizes):
-    out = ["int main() {"]
+    """A constant table {offset, size, kind}* , {sizeof}* ; evaluated by the compiler, read back from the assembly."""
+    ents, names = [], []
     for ty, fl in fields:
         for f in fl:
-            out.append('  printf("%s.%s off=%%lu size=%%lu kind=%%d\\n", (unsigned long)__builtin_offsetof(%s, %s), '
-                       'vsize(&%s::%s), vkind(&%s::%s));' % (ty, f, ty, f, ty, f, ty, f))
+            ents.append("(unsigned long)__builtin_offsetof(%s, %s), vsize(&%s::%s), (unsigned long)vkind(&%s::%s)" % (ty, f, ty, f, ty, f))
+            names.append("%s.%s" % (ty, f))
     for ty in sizes:
-        out.append('  printf("sizeof(%s)=%%lu\\n", (unsigned long)sizeof(%s));' % (ty, ty))
-    out.append("  return 0; }")
-    return '\n'.join(out)
+        ents.append("(unsigned long)sizeof(%s)" % ty)
+        names.append("sizeof(%s)" % ty)
+    return ('extern "C" { extern const unsigned long verif_layout_table[]; const unsigned long verif_layout_table[] = {\n  ' +
+            ",\n  ".join(ents) + "\n}; }\n"), names
+
+
+def _table_from_asm(asm):
+    import re
+    m = re.search(r'^verif_layout_table:\n((?:\s+\.(?:quad|zero)\s+\S+\n)+)', asm, re.M)
+    if not m:
+        return None
+    vals = []
+    for l in m.group(1).strip().split('\n'):
+        k, v = l.split()
+        if k == ".quad":
+            vals.append(int(v, 0))
+        else:   # .zero N  == N/8 zero entries
+            vals.extend([0] * (int(v, 0) // 8))
+    return vals
 
 
 def check_layout(tag, prelude_text, real_includes, fields, sizes=(), workdir=None, real_defines=()):
-    """fields: [(qualified type, [field,...])]; sizes: types whose sizeof must agree.
-    Reference-typed members cannot be offsetof'ed through a member pointer: list them with a
-    leading '&' to compare offset only."""
+    """fields: [(qualified type, [field,...])]; sizes: types whose sizeof must agree.  Nothing is linked or run:
+    both translation units are compiled to assembly and the constant table is read back."""
     workdir = workdir or os.path.join(VERIF, "build", "layout_" + tag)
     os.makedirs(workdir, exist_ok=True)
-    body = _body(fields, sizes)
-    real = ''.join('#include "%s"\n' % h for h in real_includes) + KINDS + body
-    prel = '#include <verif_base.h>\n' + prelude_text + KINDS + body
+    body, names = _body(fields, sizes)
+    kinds = KINDS.replace("template <class C, class M> int vkind", "template <class C, class M> constexpr int vkind") \
+                 .replace("template <class C, class M> unsigned long vsize", "template <class C, class M> constexpr unsigned long vsize")
+    real = ''.join('#include "%s"\n' % h for h in real_includes) + kinds + body
+    prel = '#include <verif_base.h>\n' + prelude_text + kinds + body
     outs = []
     for name, text, cmd in (
             ("real", real, ["g++", "-std=c++11", "-w", "-fno-access-control", "-I", COLA] + ["-D" + d for d in real_defines]),
@@ -57,15 +75,24 @@ def check_layout(tag, prelude_text, real_includes, fields, sizes=(), workdir=Non
         src = os.path.join(workdir, name + ".cpp")
         with open(src, "w") as f:
             f.write(text)
-        # (the real program may include a whole .cpp to reach file-local structs; only main() runs)
-        rc, out, _ = sh(cmd + [src, "-no-pie", "-Wl,--unresolved-symbols=ignore-all", "-o", os.path.join(workdir, name)], workdir, 300)
+        asm = os.path.join(workdir, name + ".s")
+        rc, out, _ = sh(cmd + ["-S", "-O0", src, "-o", asm], workdir, 300)
         if rc != 0:
-            raise Undecided("layout check %s: %s program does not compile:\n%s" % (tag, name, out[-2500:]))
-        rc, out, _ = sh([os.path.join(workdir, name)], workdir, 60)
-        if rc != 0:
-            raise Undecided("layout check %s: %s program failed" % (tag, name))
-        outs.append(out.strip().split('\n'))
+            raise Undecided("layout check %s: %s translation unit does not compile:\n%s" % (tag, name, out[-2500:]))
+        vals = _table_from_asm(open(asm).read())
+        if vals is None:
+            raise Undecided("layout check %s: constant table not found in %s.s" % (tag, name))
+        outs.append(vals)
     if outs[0] != outs[1]:
-        diff = [(a, b) for a, b in zip(outs[0], outs[1]) if a != b]
-        raise Undecided("layout check %s: prelude disagrees with the real headers: %r" % (tag, diff[:6]))
-    return outs[0]
+        nf = sum(len(fl) for _, fl in fields)
+        diff = []
+        for i in range(nf):
+            a, b = outs[0][3 * i:3 * i + 3], outs[1][3 * i:3 * i + 3]
+            if a != b:
+                diff.append("%s: real off/size/kind=%s prelude=%s" % (names[i], a, b))
+        for k in range(len(sizes)):
+            a, b = outs[0][3 * nf + k], outs[1][3 * nf + k]
+            if a != b:
+                diff.append("%s: real %s prelude %s" % (names[nf + k], a, b))
+        raise Undecided("layout check %s: prelude disagrees with the real headers: %s" % (tag, "; ".join(diff[:6])))
+    return list(zip(names, [outs[0][3 * i:3 * i + 3] for i in range(sum(len(fl) for _, fl in fields))]))
